@@ -48,6 +48,7 @@ class TapeRandom(RandomSource):
         self.tape = tape
         self.pos = 0
         self.diverged = False
+        self.concrete_values = False
 
     def _next(self, kind, lo, hi, make):
         k = self.pos
@@ -63,6 +64,11 @@ class TapeRandom(RandomSource):
         return v
 
     def randint(self, min, max):
+        if self.concrete_values:
+            # code that crosses into C (math.log on floats derived from genes): draws are realised,
+            # from a small set of representative values of the requested range
+            cands = [v for v in dict.fromkeys([min + 1, min + 6]) if min <= v <= max] or [min]
+            return self._next("int", min, max, lambda: self.ctx.pick(cands, "tape.randint"))
         return self._next("int", min, max, lambda: self.ctx.int(min, max, "tape.randint"))
 
     def random_float(self, min, max):
@@ -79,10 +85,12 @@ QUICK_PERMS = [PERMS[23], PERMS[9], PERMS[14]]
 
 
 def _search(ctx, cfg, tape, perm, reuse=None):
+    fx = synth.fixture(cfg.get("fixture", "fh"))
     if reuse is None:
-        fh.set_hashes(perm)
-        g = ctx.concrete(fh.grammar)
+        fx.set_hashes(perm)
+        g = ctx.concrete(fx.grammar)
         r = TapeRandom(ctx, tape)
+        r.concrete_values = bool(cfg.get("concrete_draws"))
         rep = synth.make_rep(cfg, g, r)
         if cfg["rep"] == "stack":  # bound the mapper's loop (it has no iteration bound of its own)
             real_map = rep.genotype_to_phenotype
@@ -90,6 +98,7 @@ def _search(ctx, cfg, tape, perm, reuse=None):
     else:
         g, rep = reuse
         r = TapeRandom(ctx, tape)
+        r.concrete_values = bool(cfg.get("concrete_draws"))
         if hasattr(rep, "decider"):
             rep.decider.random = r
     seen = []
@@ -166,6 +175,11 @@ def obligations(tier: str):
             add(f"{alg}_{rn}_other_process", alg=alg, budget=b, mode="other_process", **rc)
         if T or alg == "1p1":
             add(f"{alg}_tree_same_process", alg=alg, budget=b, mode="same_process", **reps["tree"])
+    # unrefined float field: the value is synthesised with normalvariate on the gene-backed source
+    # (state kept between calls / searches would show up in the second search of the same process)
+    for rn in ("ge",) + (("sge",) if T else ()):
+        rc = dict(reps[rn], fixture="f3f", concrete_draws=True, gene_length=2 if rn == "ge" else 1, max_depth=1)
+        add(f"rs_{rn}_float_same_process", alg="rs", budget=3, mode="same_process", **rc)
     if T:
         add("gp_mixed_step_tree_other_process", alg="gp", step="mixed", budget=3, mode="other_process", **reps["tree"])
     return obs
